@@ -10,7 +10,7 @@ META = {
     "id": "C03",
     "level": "model_checking",
     "technique": "TLA+ specs Pool (all interleavings of chunked Pool.map with ordered collection; switches OrderedCollect/WorkerState must be refuted) and Runner (C03_TargetFree over every processing order); families of real solves (1/2/3/negative core counts, every permutation and sub-set of the targets) with per-process logs of run_op_integration; TLC (PoolTrace) checks log conformance and bitwise equality of operator and error digests within each family",
-    "text": "B1: TLC explores every interleaving of up to 3 workers over up to 6 grid points with chunked hand-out and verifies that the collected list is schedule-free; two design switches (completion-order collection, worker-local state) each yield a counterexample. The Runner design shows that the word of a target is a function of the instance and target alone for every iteration order of the recipe set. B2/B3: for random instances with 1-3 targets the real solver (real quadrature, 3-point grid, LO; NLO in thorough) runs with n_integration_cores in {1,2,3,-13}, with every permutation of the targets and every non-empty subset; the sha256 of operator and error arrays per target must coincide across the whole family, and the per-process logs must show every grid point integrated exactly once.",
+    "text": "B1: TLC explores every interleaving of up to 3 workers over up to 6 grid points with chunked hand-out and verifies that the collected list is schedule-free; two design switches (completion-order collection, worker-local state) each yield a counterexample. The Runner design shows that the word of a target is a function of the instance and target alone for every iteration order of the recipe set. B2/B3: for random instances with 1-3 targets the real solver (real quadrature, 3-point grid, LO; NLO in thorough) runs with n_integration_cores in {1,2,3,-13}, with every permutation of the targets and every non-empty subset (half of the base instances contain two targets of the same nf whose scales differ by a relative 1e-7); the sha256 of operator and error arrays per target must coincide across the whole family, and the per-process logs must show every grid point integrated exactly once.",
     "note": "Interleavings of real worker processes are those the OS produces in the runs (a handful per pool); the exhaustive interleaving argument is on the Pool model, bound by the logs (each item once, ordered collection observed through bitwise equal results).",
     "design_ref": "4.5, 5 C03",
     "rule": "family = (instance, target) with all runs containing that target (cores variants, permutations, subsets); non-trivial = family with >= 3 runs and a path of >= 2 segments",
@@ -22,6 +22,9 @@ def _solve(args):
 
     seed, inst, cores, order, label = args
     tab = runner.scale_table(random.Random(seed))
+    # token 6 is a near-duplicate of token 3 (relative 1e-7 in mu^2): a distinct target that
+    # np.isclose would call equal
+    tab[6] = tab[3] * (1 + 5e-8)
     r = runner.solve_real(inst, tab, cores=cores, pool_log=True, order=order)
     return {"label": label, "inst": inst, "err": r["err"], "ops": r["ops"], "pools": r["pools"]}
 
@@ -44,6 +47,10 @@ def run(chk):
         inst = rc.random_instance(chk.rng, ntok=5, max_targets=3, nfs=(3, 4, 5))
         while len(inst["targets"]) < 2 or rc.path_len(inst) < 2:
             inst = rc.random_instance(chk.rng, ntok=5, max_targets=3, nfs=(3, 4, 5))
+        if b % 2 == 0:
+            # a pair of nearly degenerate targets (same nf) among the co-targets
+            nf = inst["targets"][0][1]
+            inst["targets"] = [[3, nf], [6, nf]] + [t for t in inst["targets"][:1] if t[0] not in (3, 6)]
         seed = chk.rng.randrange(2**31)
         order = (2, 0) if (chk.thorough() and b % 2) else (1, 0)
         bases.append(inst)
